@@ -12,6 +12,7 @@ import (
 	_ "verifsim/worlds/mulgadgets"
 	_ "verifsim/worlds/otpair"
 	_ "verifsim/worlds/sha2pcworld"
+	_ "verifsim/worlds/sharedcirc"
 	_ "verifsim/worlds/stream"
 	_ "verifsim/worlds/twopc"
 )
